@@ -1,7 +1,7 @@
 (* C12 — the exported statements, over the boolean hypotheses that Extract.v evaluates. *)
 From Coq Require Import List ZArith Bool Lia.
 From Verif Require Import C12.Model C12.Spec C12.Proofs_Lattice C12.Proofs_Steps C12.Proofs_Pass
-  C12.Proofs_Leveled C12.Proofs_Be C12.Proofs_Hist.
+  C12.Proofs_Leveled C12.Proofs_Be C12.Proofs_Rec C12.Proofs_Hist.
 Import ListNotations.
 Open Scope Z_scope.
 
@@ -100,6 +100,32 @@ Lemma main_be_idle e st paths oldset newset :
   Z.lor oldset newset = newset -> (forall p, In p paths -> get (sfs st) p = newset) ->
   snd (be_apply e st paths oldset newset) = [].
 Proof. intros Hh Hc Hnz. apply be_idle; try assumption. apply be_hyps_bhyps; exact Hh. Qed.
+
+Lemma main_recover e st paths newset :
+  rec_hyps e (sfs st) paths newset = true -> coherent (scache st) (sfs st) ->
+  let res := rec_apply e st paths newset in
+  every_prefix_valid e (sfs st) (snd res)
+  /\ (forall k, get (sfs (fst res)) k = if inb k paths then newset else get (sfs st) k)
+  /\ no_redundant e (sfs st) (rec_updaters paths newset) (snd res)
+  /\ prop_code e (sfs st) [rec_updaters paths newset] (snd res) (sfs (fst res)) = 0
+  /\ validb e (sfs (fst res)) = true
+  /\ coherent (scache (fst res)) (sfs (fst res)).
+Proof.
+  intros Hh Hc res. pose proof (rec_hyps_rhyps _ _ _ _ Hh) as H.
+  split; [apply rec_prefix_valid; assumption|].
+  split; [apply rec_final; assumption|].
+  split; [apply rec_no_redundant; assumption|].
+  split; [|split; [apply rec_valid_after; assumption|apply rec_coherent; assumption]].
+  apply prop_code_spec; [apply validb_validF, (r_start _ _ _ _ H)|apply rec_batch_holds; assumption].
+Qed.
+
+(* suppress 0-3 -> {2,3}, then recover to 0-3: root, pod, container grow top-down *)
+Lemma ex_rec_hyps :
+  let e := mkEnv 0 [(0, 0); (1, 0); (2, 0)] [(1, 0); (2, 1)] in
+  rec_hyps e [(0, 12); (1, 12); (2, 12)] [0; 1; 2] 15 = true
+  /\ snd (rec_apply e (mkSt [(0, 12); (1, 12); (2, 12)] []) [0; 1; 2] 15) = [(0, 15); (1, 15); (2, 15)]
+  /\ validb e (apply_writes e [(2, 15)] [(0, 12); (1, 12); (2, 12)]) = false.
+Proof. vm_compute. repeat split. Qed.
 
 (* non-vacuity: the hypotheses hold on concrete histories with merges, narrowing, an expiry *)
 Definition ex_env : env := mkEnv 0 [(0, 0); (1, 2); (2, 0); (3, 2); (4, 0); (5, 2)] [(2, 0); (3, 1); (4, 2); (5, 3)].
